@@ -189,11 +189,15 @@ PROPS = {
                          "c09_core_step_no_panic", "c09_core_step_ok", "c09_core_inv_step", "c09_core_inv_reachable",
                          "c09_core_run_no_panic", "c09_core_run_no_panic'", "c09_core_run_step_no_panic",
                          "c09_mn_reject_no_panic'", "c09_mn_reject_no_panic_reachable'", "c09_core_f27_witness",
+                         # composed (Props/C09Compose.lean): neither layer panics, hypotheses explicit
+                         "@HqModel.Sys.sys_core_good", "@HqModel.Sys.sys_no_core_panic_partial", "@HqModel.Sys.sys_never_panics_partial",
+                         "@HqModel.Sys.sys_run_never_panics_partial", "@HqModel.SysW.sysw_core_good",
+                         "@HqModel.SysW.sysw_never_stops_partial", "@HqModel.SysW.sysw_run_never_stops_partial",
                          # the F32 repair (Props/C09.lean)
                          "c09_mn_shape_reachable", "c09_mn_reject_arm_no_panic", "c09_mn_reject_no_panic",
                          "c09_mn_reject_no_panic_reachable"],
                  [job(["ev", "resp", "ret", "core", "job", "tasks", "live"], ["c09."]),
-                  core(["msg", "cb", "flag", "t", "w", "q", "rd"], ["c09."]),
+                  core(["msg", "cb", "flag", "t", "w", "q", "rd"], ["c09."]),   # incl. c09.hyp: OpNP / OpExcl of the progress theorem on every real op
                   exhaust("core", ["msg", "cb", "flag", "t", "w", "q", "rd"], ["c09."]),
                   exhaust("job", ["ev", "resp", "ret", "core", "job", "tasks", "live"], ["c09."]), sys_link(),
                   sysw(None), sysw_exhaust(None), rpc(["c09."])],
